@@ -53,6 +53,7 @@ func init() {
 	register("kf.C06-b", func(g *hx.Gen, id int) hx.Case { return kfCase("kf.C06-b", kfC06b, id) })
 	register("kf.C06-c", func(g *hx.Gen, id int) hx.Case { return kfCase("kf.C06-c", kfC06c, id) })
 	register("kf.C06-d", func(g *hx.Gen, id int) hx.Case { return kfCase("kf.C06-d", kfC06d, id) })
+	register("kf.C05-d", func(g *hx.Gen, id int) hx.Case { return kfCase("kf.C05-d", kfC05d, id) })
 }
 
 // ---------------------------------------------------------------------------------------------
@@ -292,6 +293,13 @@ func runHdrCase(c hdrCase) []string {
 		out = append(out, hx.X(string(canon(rec.Body.Bytes(), 0))))
 		// are the delivered bytes literally the origin's (cross-check of the canonical form)
 		out = append(out, hx.B(bytes.Equal(rec.Body.Bytes(), c.body)))
+		// C05: a Content-Length that reaches the client equals the bytes delivered
+		clOK := true
+		if v := res.Header.Get("Content-Length"); v != "" {
+			n, err := strconv.Atoi(v)
+			clOK = err == nil && n == len(rec.Body.Bytes())
+		}
+		out = append(out, hx.B(clOK))
 		return out
 	})
 }
@@ -495,6 +503,13 @@ var kfC06c = []hdrCase{
 var kfC06d = []hdrCase{
 	buildHdrCase(true, true, "gzip", "-", "text/html", []string{"max-age=60", "no-transform"}, nil, true, false, []byte("hello world")),
 	buildHdrCase(true, true, "br", "gzip", "image/png", []string{"public", "no-transform"}, nil, true, false, gz([]byte("hello world"), 6)),
+}
+
+// kfC05d: the origin labels a body gzip that is not gzip; the self-made 500 goes out under the origin's
+// headers, Content-Length included, with no body
+var kfC05d = []hdrCase{
+	buildHdrCase(true, true, "gzip;q=1.0, identity;q=0.5", "gzip", "text/plain", nil, nil, true, false, []byte("this is not a gzip stream at all")),
+	buildHdrCase(true, true, "br", "gzip", "application/json", nil, []string{"Accept-Encoding"}, true, true, []byte(`{"k":[1,2,3]}`)),
 }
 
 func kfCase(name string, table []hdrCase, id int) hx.Case {
